@@ -13,8 +13,10 @@ import (
 	"strings"
 
 	"golang.org/x/tools/go/packages"
+
 	"golang.org/x/tools/go/ssa"
 	"golang.org/x/tools/go/ssa/ssautil"
+	"verif/checker/internal/base"
 )
 
 // ModPath is the import path prefix of every package that is a rule subject.
@@ -31,7 +33,8 @@ type Program struct {
 	byName  map[string]*ssa.Function
 	modPkgs map[*types.Package]bool
 	LoadS   float64
-	Cache   *Program // the separately loaded /repo/cache module (nil inside it)
+	Cache   *Program      // the separately loaded /repo/cache module (nil inside it)
+	Ren     *base.Renames // baseline symbols that were renamed in the current tree
 }
 
 // Load loads root (normally /repo). Any load or type error is returned: a
@@ -99,6 +102,7 @@ func load(root, dir string, minPkgs int, overlay map[string][]byte) (*Program, e
 	if len(p.Mod) < minPkgs {
 		return nil, fmt.Errorf("expected at least %d module packages in %s, loaded %d", minPkgs, dir, len(p.Mod))
 	}
+	p.Ren = base.Resolve(base.Load(), p.Mod)
 	prog, _ := ssautil.AllPackages(pkgs, ssa.BuilderMode(0))
 	prog.Build()
 	p.Prog = prog
@@ -168,6 +172,24 @@ func (p *Program) collectFuncs() {
 // "neutrino.(*ChainService).GetBlock$1".
 func (p *Program) Name(fn *ssa.Function) string {
 	s := fn.String()
+	if p.Ren != nil && (len(p.Ren.OldName) > 0) {
+		root := fn
+		for root.Parent() != nil {
+			root = root.Parent()
+		}
+		if obj, ok := root.Object().(*types.Func); ok {
+			if old, ok := p.Ren.OldName[obj.Origin()]; ok {
+				rs := root.String()
+				if i := strings.LastIndex(rs, "."); i >= 0 && strings.HasPrefix(s, rs) {
+					s = rs[:i+1] + old + s[len(rs):]
+				}
+			}
+		}
+		for k, old := range p.Ren.TypeRev {
+			i := strings.LastIndex(k, ".")
+			s = strings.ReplaceAll(s, k+")", k[:i+1]+old+")")
+		}
+	}
 	s = strings.ReplaceAll(s, ModPath+"/", "")
 	s = strings.ReplaceAll(s, ModPath, "neutrino")
 	return s
@@ -207,6 +229,11 @@ func (p *Program) Named(pkg, typ string) *types.Named {
 		return nil
 	}
 	o := tp.Scope().Lookup(typ)
+	if o == nil && p.Ren != nil {
+		if nn, ok := p.Ren.Type[tp.Path()+"."+typ]; ok {
+			o = tp.Scope().Lookup(nn)
+		}
+	}
 	if o == nil {
 		return nil
 	}
@@ -227,6 +254,13 @@ func (p *Program) Field(pkg, typ, field string) *types.Var {
 	for i := 0; i < st.NumFields(); i++ {
 		if st.Field(i).Name() == field {
 			return st.Field(i).Origin()
+		}
+	}
+	if p.Ren != nil {
+		if tp := p.Pkg(pkg); tp != nil {
+			if f := p.Ren.Field[tp.Path()+"."+typ+"."+field]; f != nil {
+				return f.Origin()
+			}
 		}
 	}
 	return nil
@@ -252,6 +286,13 @@ func (p *Program) Method(pkg, typ, name string) *types.Func {
 			return n.Method(i)
 		}
 	}
+	if p.Ren != nil {
+		if tp := p.Pkg(pkg); tp != nil {
+			if m := p.Ren.Method[tp.Path()+"."+typ+"."+name]; m != nil {
+				return m
+			}
+		}
+	}
 	return nil
 }
 
@@ -262,6 +303,9 @@ func (p *Program) FuncObj(pkg, name string) *types.Func {
 		return nil
 	}
 	f, _ := tp.Scope().Lookup(name).(*types.Func)
+	if f == nil && p.Ren != nil {
+		f = p.Ren.Func[tp.Path()+"."+name]
+	}
 	return f
 }
 
